@@ -50,7 +50,7 @@ var c15Msgs = []string{"„ÄêÂøÖÂ°´„ÄëÂßìÂêç‰∏çËÉΩ‰∏∫Á©∫", "‚ÄúÂßìÂêç‚Äù‰∏çËÉΩ‰∏∫Á
 func init() {
 	core.Register(&core.Prop{
 		ID: "C15",
-		Rule: "(A) every message-capable rule (32 keys, 44 rule/value rows incl. CJK rule values) x 25 messages (CJK after other non-ASCII characters, containing a label word, containing %, ending in ; or a blank, ASCII, CJK, mixed, one rune, with = | and quoted comma) and no message x failing / passing value x carriers {struct tag, struct RM, Var, map, url}, plus required with every message on keys absent from a map / query and on initialised-but-empty and nil collections in struct fields: the clause must show label(msg)+' '+msg verbatim instead of default wording; without message an explain:-labelled non-empty default text; " +
+		Rule: "(A) every message-capable rule (32 keys, 44 rule/value rows incl. CJK rule values) x 25 messages (CJK after other non-ASCII characters, containing a label word, containing %, ending in ; or a blank, ASCII, CJK, mixed, one rune, with = | and quoted comma) and no message x failing / passing value x carriers {struct tag, struct RM, Var, map, url}, plus every rule with every message on failing values of 256 / 257 / 300 / 5000 bytes, plus required with every message on keys absent from a map / query and on initialised-but-empty and nil collections in struct fields: the clause must show label(msg)+' '+msg verbatim instead of default wording; without message an explain:-labelled non-empty default text; " +
 			"(B) GetOnlyExplainErr applied to real library errors of 1..8 clauses in every order pattern (k<=4 exhaustively, k<=8 random) over {Chinese-labelled, English default, English custom, unknown-rule (unlabelled), rule-writing error (unlabelled)} plus trailing group clauses. distinct = distinct error text fed to the extractor / distinct (rule,msg,carrier,fail) tuple; non-trivial = error with >=1 clause",
 		Shards: func(t core.Tier) int { return 8 },
 		Run:    runC15,
@@ -158,6 +158,52 @@ func runC15(c *core.Ctx) {
 					}
 					if idx%997 == 0 {
 						res.Sample("message", 3, wit)
+					}
+				}
+			}
+		}
+	}
+
+	// ---- (A3) long failing values (beyond 256 bytes, beyond 4 KB): whatever a rule does with the
+	// echo of a long input, the message is the caller's
+	a3 := 0
+	for _, r := range []string{"json", "email", "int", "float", "re='^a+$'", "in=(a/b)", "include=(ab/cd)", "to=2~3", "le=2", "eq=2", "phone", "ip", "ipv4", "ipv6", "idcard", "year", "date", "datetime", "unique", "ints", "prefix=ab", "suffix=ab", "file", "dir"} {
+		for _, n := range []int{256, 257, 300, 5000} {
+			val := "{" + strings.Repeat("x", n-1)
+			switch r {
+			case "unique":
+				val = "a,a," + strings.Repeat("x", n-4)
+			case "ints":
+				val = "1,z" + strings.Repeat("x", n-3)
+			}
+			for _, msg := range c15Msgs {
+				for _, cr := range []string{drive.Var, drive.StructRM, drive.MapT, drive.UrlEnc} {
+					a3++
+					if !c.Mine(a3) {
+						continue
+					}
+					text := r + "|" + msg
+					out, ok := drive.Carry(cr, reflect.ValueOf(val), text)
+					if !ok {
+						continue
+					}
+					res.Eval()
+					res.DistinctEnum(1)
+					res.Count("message_clauses_checked")
+					res.Count("long_value_cases")
+					key := ruleKeyOf(r)
+					wit := map[string]string{"carrier": cr, "rule": text, "value_length": fmt.Sprint(len(val)), "library_returned": trunc(out.String(), 400)}
+					if out.Panic != "" {
+						res.Violate("C15|message|"+key+"|panic|"+cr, fmt.Sprintf("%s %q on a %d-byte value panicked: %s", cr, text, len(val), out.Panic), wit)
+						continue
+					}
+					cls := clause.Parse(out.Err)
+					if out.Nil || len(cls) != 1 {
+						res.Violate("C15|message|"+key+"|clause-count|"+cr, fmt.Sprintf("%s: %q on a failing %d-byte value returned %s (want exactly one clause)", cr, text, len(val), trunc(out.String(), 300)), wit)
+						continue
+					}
+					if cl := cls[0]; cl.Label != clause.LabelFor(msg) || cl.Text != msg {
+						res.Violate("C15|message|"+key+"|message-not-verbatim|long-value|"+cr, fmt.Sprintf("%s: %q on a %d-byte value returned %s; want explanation %q", cr, text, len(val), trunc(out.String(), 300), clause.LabelFor(msg)+" "+msg), wit)
 					}
 				}
 			}
